@@ -44,7 +44,7 @@ MANIFEST = dict(
     level_note=("Trusted: Lean kernel; axioms propext/Classical.choice/Quot.sound only; the correspondence harness; "
                 "the Mux transport between server and client (C07); the file-system effects of rewrite_etc_hosts "
                 "beyond the marked lines (C14); DNS/reverse-DNS libraries and netstat output (scanner inputs are "
-                "arbitrary strings). Holds for the repaired code (proposed_fixes/C19-*.diff, C13-*.diff)."),
+                "arbitrary strings). Holds for the repaired code (fix commits 6af5614, 69bf1f6, 80ba208)."),
     technique="Lean 4 proof (induction over chunks with the leftover invariant) + staged differential correspondence",
 )
 DRIVER_TARGETS = ['SshuttleModel.Code.HostPipeline']
